@@ -158,11 +158,33 @@ fn c14_cmp_eq() {
 }
 /// Multiplicative operations: the second operand ranges over a *constant* table inside an unrolled loop
 /// (symbolic x symbolic 64/128-bit multiplication and division do not finish in CBMC; constant operands do).
-const T_SMALL: [i128; 8] = [-7, -3, -2, -1, 1, 2, 3, 7];
-const T_MID: [i128; 6] = [-6, -5, -4, 4, 5, 6];
+const T_UNIT: [i128; 4] = [-2, -1, 1, 2];
 const T_POW2: [i128; 6] = [1 << 8, -(1 << 16), 1 << 20, -(1 << 27), 1 << 31, -(1 << 32)];
-const T_EDGE: [i128; 4] = [10, -10, 1 << 62, -(1 << 63)];
+const T_POW2B: [i128; 4] = [1 << 40, -(1 << 50), 1 << 62, -(1 << 63)];
+const T_SMALL: [i128; 6] = [-7, -3, 3, 5, 7, 10];
+const T_MID: [i128; 6] = [-6, -5, -4, 4, 6, -10];
+const T_ODD: [i128; 6] = [-7, -3, 3, 5, 10, 1000003];
 
+/// Short operands restricted to 32 bits (Long operands unrestricted): used with non-power-of-two divisors, where
+/// CBMC's 64-bit divider circuit with a full-width symbolic dividend does not finish
+fn any_canonical_narrow() -> LazyBigint {
+    let a = any_canonical();
+    if let LazyBigint::Short(s) = &a {
+        kani::assume(*s >= i32::MIN as i64 && *s <= i32::MAX as i64);
+    }
+    a
+}
+macro_rules! narrow_table_harness {
+    ($name:ident, $table:ident, $n:expr, |$a:ident, $c:ident| $body:block) => {
+        #[kani::proof]
+        #[kani::unwind($n)]
+        fn $name() {
+            let $a = any_canonical_narrow();
+            trace!(a = val(&$a));
+            for $c in $table $body
+        }
+    };
+}
 macro_rules! table_harness {
     ($name:ident, $table:ident, $n:expr, |$a:ident, $c:ident| $body:block) => {
         #[kani::proof]
@@ -203,14 +225,16 @@ fn check_mul_assign(a: &LazyBigint, c: i128) {
     kani::cover!(is_long(a), "Long operand");
     kani::cover!(!is_long(a) && is_long(&r4), "Short times Short promotes");
 }
-table_harness!(c14_mul_small, T_SMALL, 9, |a, c| { check_mul(&a, c); });
-table_harness!(c14_mul_mid, T_MID, 7, |a, c| { check_mul(&a, c); });
+table_harness!(c14_mul_unit, T_UNIT, 5, |a, c| { check_mul(&a, c); });
 table_harness!(c14_mul_pow2, T_POW2, 7, |a, c| { check_mul(&a, c); });
-table_harness!(c14_mul_edge, T_EDGE, 5, |a, c| { check_mul(&a, c); });
-table_harness!(c14_mul_assign_small, T_SMALL, 9, |a, c| { check_mul_assign(&a, c); });
-table_harness!(c14_mul_assign_mid, T_MID, 7, |a, c| { check_mul_assign(&a, c); });
+table_harness!(c14_mul_pow2b, T_POW2B, 5, |a, c| { check_mul(&a, c); });
+table_harness!(c14_mul_small, T_SMALL, 7, |a, c| { check_mul(&a, c); });
+table_harness!(c14_mul_mid, T_MID, 7, |a, c| { check_mul(&a, c); });
+table_harness!(c14_mul_assign_unit, T_UNIT, 5, |a, c| { check_mul_assign(&a, c); });
 table_harness!(c14_mul_assign_pow2, T_POW2, 7, |a, c| { check_mul_assign(&a, c); });
-table_harness!(c14_mul_assign_edge, T_EDGE, 5, |a, c| { check_mul_assign(&a, c); });
+table_harness!(c14_mul_assign_pow2b, T_POW2B, 5, |a, c| { check_mul_assign(&a, c); });
+table_harness!(c14_mul_assign_small, T_SMALL, 7, |a, c| { check_mul_assign(&a, c); });
+table_harness!(c14_mul_assign_mid, T_MID, 7, |a, c| { check_mul_assign(&a, c); });
 
 // Division oracles avoid a second wide divider: q is checked through  a = q*c + r  with the sign/size condition on r.
 fn sgn(x: i128) -> i128 { x.signum() }
@@ -264,26 +288,26 @@ fn check_rem_owned(a: &LazyBigint, c: i128) {
     assert!(canonical(&m), "rem canonical (owned impl)");
     kani::cover!(va < 0 && c > 0 && val(&m) != 0, "negative dividend");
 }
-table_harness!(c14_div_trunc_small, T_SMALL, 9, |a, c| { check_div_trunc(&a, c); });
+table_harness!(c14_div_trunc_unit, T_UNIT, 5, |a, c| { check_div_trunc(&a, c); });
 table_harness!(c14_div_trunc_pow2, T_POW2, 7, |a, c| { check_div_trunc(&a, c); });
-table_harness!(c14_div_trunc_mid, T_MID, 7, |a, c| { check_div_trunc(&a, c); });
-table_harness!(c14_div_trunc_edge, T_EDGE, 5, |a, c| { check_div_trunc(&a, c); });
-table_harness!(c14_div_floor_small, T_SMALL, 9, |a, c| { check_div_floor(&a, c); });
+table_harness!(c14_div_trunc_pow2b, T_POW2B, 5, |a, c| { check_div_trunc(&a, c); });
+narrow_table_harness!(c14_div_trunc_odd, T_ODD, 7, |a, c| { check_div_trunc(&a, c); });
+table_harness!(c14_div_floor_unit, T_UNIT, 5, |a, c| { check_div_floor(&a, c); });
 table_harness!(c14_div_floor_pow2, T_POW2, 7, |a, c| { check_div_floor(&a, c); });
-table_harness!(c14_div_floor_mid, T_MID, 7, |a, c| { check_div_floor(&a, c); });
-table_harness!(c14_div_floor_edge, T_EDGE, 5, |a, c| { check_div_floor(&a, c); });
-table_harness!(c14_div_ceil_small, T_SMALL, 9, |a, c| { check_div_ceil(&a, c); });
+table_harness!(c14_div_floor_pow2b, T_POW2B, 5, |a, c| { check_div_floor(&a, c); });
+narrow_table_harness!(c14_div_floor_odd, T_ODD, 7, |a, c| { check_div_floor(&a, c); });
+table_harness!(c14_div_ceil_unit, T_UNIT, 5, |a, c| { check_div_ceil(&a, c); });
 table_harness!(c14_div_ceil_pow2, T_POW2, 7, |a, c| { check_div_ceil(&a, c); });
-table_harness!(c14_div_ceil_mid, T_MID, 7, |a, c| { check_div_ceil(&a, c); });
-table_harness!(c14_div_ceil_edge, T_EDGE, 5, |a, c| { check_div_ceil(&a, c); });
-table_harness!(c14_rem_ref_small, T_SMALL, 9, |a, c| { check_rem_ref(&a, c); });
+table_harness!(c14_div_ceil_pow2b, T_POW2B, 5, |a, c| { check_div_ceil(&a, c); });
+narrow_table_harness!(c14_div_ceil_odd, T_ODD, 7, |a, c| { check_div_ceil(&a, c); });
+table_harness!(c14_rem_ref_unit, T_UNIT, 5, |a, c| { check_rem_ref(&a, c); });
 table_harness!(c14_rem_ref_pow2, T_POW2, 7, |a, c| { check_rem_ref(&a, c); });
-table_harness!(c14_rem_ref_mid, T_MID, 7, |a, c| { check_rem_ref(&a, c); });
-table_harness!(c14_rem_ref_edge, T_EDGE, 5, |a, c| { check_rem_ref(&a, c); });
-table_harness!(c14_rem_owned_small, T_SMALL, 9, |a, c| { check_rem_owned(&a, c); });
+table_harness!(c14_rem_ref_pow2b, T_POW2B, 5, |a, c| { check_rem_ref(&a, c); });
+narrow_table_harness!(c14_rem_ref_odd, T_ODD, 7, |a, c| { check_rem_ref(&a, c); });
+table_harness!(c14_rem_owned_unit, T_UNIT, 5, |a, c| { check_rem_owned(&a, c); });
 table_harness!(c14_rem_owned_pow2, T_POW2, 7, |a, c| { check_rem_owned(&a, c); });
-table_harness!(c14_rem_owned_mid, T_MID, 7, |a, c| { check_rem_owned(&a, c); });
-table_harness!(c14_rem_owned_edge, T_EDGE, 5, |a, c| { check_rem_owned(&a, c); });
+table_harness!(c14_rem_owned_pow2b, T_POW2B, 5, |a, c| { check_rem_owned(&a, c); });
+narrow_table_harness!(c14_rem_owned_odd, T_ODD, 7, |a, c| { check_rem_owned(&a, c); });
 
 /// small symbolic dividend |c| <= 7, arbitrary canonical non-zero divisor: closed-form oracle
 /// (for |b| > |c|: trunc quotient 0, floored remainder c or c+b; otherwise narrow arithmetic)
